@@ -14,7 +14,7 @@ OutVals == {"print", "csv", "json"}
 Opts == [d : DVals, out : OutVals, c : BOOLEAN, k : BOOLEAN,
          a : {"default", "3"}, b : {"default", "2"}, e : {"default", "2", "0.5"},
          m : BOOLEAN, p : {"default", "0.3"}, n : {"default", "4"}, s : {"default", ";"},
-         f : {"csv", "rttm"}, files : {1, 2}, seed : {"7", "4772"}]
+         f : {"csv", "rttm"}, files : {1, 2}, seed : {"0", "4772"}]
 
 CatClass(d) == CASE d \in {"default", "absolute"} -> "AbsoluteCategoricalDissimilarity"
                  [] d = "numerical" -> IF Variant = "numerical_ignored" THEN "AbsoluteCategoricalDissimilarity"
